@@ -3,6 +3,8 @@ package batching
 import (
 	"iter"
 	"sync"
+
+	"reduction.dev/reduction/util/verifhook"
 )
 
 // ReorderBuffer stores out-of-order items provided by Add() and returns then in
@@ -63,5 +65,6 @@ func (b *ReorderBuffer[T]) Drain() iter.Seq[T] {
 				break
 			}
 		}
+		verifhook.At("batching.drain.end")
 	}
 }
